@@ -208,8 +208,33 @@ func (c *naluCodec) runSequence(vb *vbuf, init int, seq [][]int) {
 			}
 		}
 	}
-	s := newSession(c.newFormat(append([][]byte(nil), cur...)))
-	defer s.close()
+	// the initial parameters come from a parsed session description: sub-slices of a decode buffer with spare
+	// capacity as well (base64 decoding returns such slices)
+	sdpAr := newArena(64, len(cur))
+	initParams := make([][]byte, len(cur))
+	for k, p := range cur {
+		if p != nil {
+			initParams[k] = sdpAr.carve(p, "initial description parameter "+c.kinds[k])
+		}
+	}
+	s := newSession(c.newFormat(initParams))
+	closed := false
+	defer func() {
+		if !closed {
+			s.close()
+		}
+	}()
+
+	// the publisher's receive buffer: every NALU of every unit of the sequence is a sub-slice of it
+	total, elems := 0, 0
+	for _, au := range seq {
+		for _, si := range au {
+			total += len(c.syms[si].b)
+			elems++
+		}
+	}
+	ar := newArena(total, elems)
+	tr := &tracker{arenas: []*arena{ar, sdpAr}}
 
 	replay := func(step int) map[string]any {
 		names := make([]string, len(seq))
@@ -224,10 +249,13 @@ func (c *naluCodec) runSequence(vb *vbuf, init int, seq [][]int) {
 		before := c.stateName(cur)
 		beforeCopy := append([][]byte(nil), cur...)
 		accepted, hasKey, dup := c.refStep(cur, au)
-		in := make([][]byte, len(au))
+		elemsB := make([][]byte, len(au))
+		elemsN := make([]string, len(au))
 		for i, si := range au {
-			in[i] = c.syms[si].b
+			elemsB[i] = c.syms[si].b
+			elemsN[i] = c.syms[si].name
 		}
+		in := tr.carveList(ar, step, elemsB, elemsN)
 		u := s.write(c.wrap(in), int64(3000*(step+1)))
 		r.Eval(1)
 		suffix := ""
@@ -270,6 +298,13 @@ func (c *naluCodec) runSequence(vb *vbuf, init int, seq [][]int) {
 				return // state diverged: later units of this sequence are not judged
 			}
 		}
+		// aliasing over time: what was delivered / handed over / reported before must still read the same
+		tr.retainPayload(step, u.Payload)
+		tr.retainDesc(step, desc)
+		if f := tr.check(fmt.Sprintf("after unit %d [%s] was written", step, c.auName(au))); f != nil {
+			vb.add(c.name+":"+f.key+suffix, fmt.Sprintf("%s initial parameters %d, sequence %v: %s", c.name, init, replay(step)["access_units"], f.what), replay(step))
+			return
+		}
 		changed := !equalLists(beforeCopy, cur)
 		if changed {
 			count(&updates)
@@ -294,6 +329,11 @@ func (c *naluCodec) runSequence(vb *vbuf, init int, seq [][]int) {
 		if len(seq) == 1 && hasKey && changed && nPrefix > 0 {
 			r.Sample(map[string]any{"codec": c.name, "state_before": before, "unit": c.auName(au), "delivered": hexList(got), "description_after": c.stateName(cur)})
 		}
+	}
+	s.close()
+	closed = true
+	if f := tr.check("after the stream was closed"); f != nil {
+		vb.add(c.name+":"+f.key, fmt.Sprintf("%s initial parameters %d, sequence %v: %s", c.name, init, replay(len(seq) - 1)["access_units"], f.what), replay(len(seq)-1))
 	}
 }
 
